@@ -276,17 +276,26 @@ def run(r):
     exe = r.cargo_build("c10")
     if exe is None:
         return
-    rc, out, err = r.harness(exe, ["gen", r.tier])
-    if rc != 0:
-        r.broken.append(f"harness c10 exited {rc}: {err[-300:]}")
-        return
-    lines = out.splitlines()
-    model = r.driver("drive_c10", out)
-    if model is None or len(model) != len(lines):
-        r.broken.append("model driver output does not line up with the harness cases")
-        return
+    # the streams are produced and checked part by part to bound memory
+    nch = 8 if r.tier == "thorough" else 1
+    parts = [("seg-exh", i, nch) for i in range(nch)] + [("seg-sample", 0, 1), ("seg-fam", 0, 1), ("prog", 0, 1), ("line", 0, 1), ("cfg", 0, 1)]
     r.exhaustive = False
-    check_lines(r, lines, model)
+    for which, i, n in parts:
+        rc, out, err = r.harness(exe, ["gen", r.tier, which, str(i), str(n)])
+        if rc != 0:
+            r.broken.append(f"harness c10 {which} exited {rc}: {err[-300:]}")
+            return
+        lines = out.splitlines()
+        if not lines:
+            r.broken.append(f"harness c10 produced no cases for {which}")
+            return
+        model = r.driver("drive_c10", out)
+        del out
+        if model is None or len(model) != len(lines):
+            r.broken.append(f"model driver output does not line up with the harness cases ({which})")
+            return
+        check_lines(r, lines, model)
+        del lines, model
 
 
 def check_lines(r, lines, model, verbose=False):
@@ -416,7 +425,7 @@ def check_lines(r, lines, model, verbose=False):
                 r.oracle_failure(case, f"valid delimiter set {fam} gives build={b} probe={fl.get('probe')}", f"cfg/{fam}")
             if not ok and b != "err:InvalidDelimiter":
                 r.oracle_failure(case, f"invalid delimiter set {fam} is not rejected: build={b}", f"cfg/{fam}")
-    r.extra["lean_vs_python_spec_disagreements"] = n_spec_bad
+    r.extra["lean_vs_python_spec_disagreements"] = r.extra.get("lean_vs_python_spec_disagreements", 0) + n_spec_bad
 
 
 def replay(r, path):
